@@ -189,6 +189,57 @@ class Prov:
         return res
 
 
+def token_pairs_rule(rep, m):
+    """Tokens made after scanning (macro expansion, parser) keep file and line of ONE source token: a (file, line) pair put
+    together from two tokens names a line on which no token of that file need stand."""
+    H = rep.rule('C08.h', 'a token created or re-positioned after scanning takes its file and its line from one and the same token', floor=0)
+    tf = Facts(['Compiler/src/macro.cpp', 'Compiler/src/parse.cpp'])
+    rep.note_facts(tf)
+    tm = GenModel.__new__(GenModel)
+    tm.facts, tm._defs, tm._cfg = tf, {}, {}
+    n = 0
+
+    def root_of(f, e):
+        e = strip_casts(strip_copies(e)) if e is not None else None
+        if e is None or e.get('k') != 'member':
+            return None, None
+        b = strip_casts(e['base'])
+        if b is not None and b.get('k') == 'ref' and b.get('dk') == 'var':
+            o = tm.origin(f, b)
+            if o is not None and o is not b:
+                b = strip_casts(strip_copies(o))
+        return show(b), e['name']
+    for f in tf.functions:
+        if f.get('body') is None or not f['file'].endswith(('macro.cpp', 'parse.cpp')) or f['tmpl'] == 'pattern':
+            continue
+        for e in walk_all_exprs(f['body']):
+            pair = None
+            if e.get('k') == 'construct' and e.get('rec') == 'Theo::Token' and len(e.get('args', [])) == 4:
+                pair = (e['args'][2], e['args'][3])
+            elif e.get('k') == 'init' and e.get('rec') == 'Theo::Token':
+                fl = dict(e['fields'])
+                if fl.get('file') is not None and fl.get('line') is not None:
+                    pair = (fl['file'], fl['line'])
+            if pair is None:
+                continue
+            n += 1
+            (rf, nf), (rl, nl) = root_of(f, pair[0]), root_of(f, pair[1])
+            inst = '%s: %s' % (f['q'].split('::')[-1], show(e)[:60])
+            where = '%s:%d' % (os.path.relpath(f['file'], tf.repo) if hasattr(tf, 'repo') else f['file'], e['loc'][0])
+            if rf is None or rl is None:
+                lit = strip_casts(pair[0]).get('k') == 'str' and (strip_casts(pair[1]).get('k') in ('int', 'un'))
+                if lit:
+                    H.ok(inst, 'placeholder position', where)
+                else:
+                    H.unknown(inst, 'position sources %s / %s not recognised' % (show(pair[0]), show(pair[1])))
+            elif rf == rl and nf == 'file' and nl == 'line':
+                H.ok(inst, 'file and line of %s' % rf, where)
+            else:
+                H.violation(inst, 'file comes from %s.%s but line from %s.%s: the pair need not be a line of that file on which a token stands '
+                            '(a breakpoint location / error position that does not exist)' % (rf, nf, rl, nl), where)
+    rep.extra['token_constructions_after_scanning'] = n
+
+
 # ============================================================================= C03
 def c03(rep, tier):
     model = GenModel()
@@ -595,6 +646,20 @@ def c03(rep, tier):
         for d, ds in m.defs(f).items():
             for kind, rhs, decl in ds:
                 if kind == 'init' and is_call(strip_casts(rhs), 'GenState::createLabel'):
+                    # a label that is stored in a mark table or handed back to the caller is a mark's label: it is set by
+                    # dispatchMark (rule below), not in this function
+                    escapes = False
+                    for x in walk_all_exprs(f['body']):
+                        if x.get('k') == 'assign' and strip_casts(x['r']).get('d') == d and is_call(strip_casts(x['l']), '::operator[]') and 'marks' in show(strip_casts(x['l'])['obj']):
+                            escapes = True
+                        if x.get('k') == 'call' and m.callee(x).split('::')[-1] in ('emplace', 'insert', 'insert_or_assign', 'try_emplace') and x.get('obj') is not None and \
+                                'marks' in show(x['obj']) and any(y.get('k') == 'ref' and y.get('d') == d for a in x['args'] for y in walk_expr(a)):
+                            escapes = True
+                    for st2 in walk_stmts(f['body']):
+                        if st2['k'] == 'return' and st2.get('e') is not None and strip_casts(strip_copies(st2['e'])).get('d') == d:
+                            escapes = True
+                    if escapes:
+                        continue
                     gg = gg or m.cfg(f)
                     sets = [ev for ev in gg.calls_to('GenState::setLabel') if strip_casts(ev.e['args'][0]).get('d') == d]
                     inst = '%s: label %s' % (f['q'], decl['name'])
@@ -626,7 +691,7 @@ def c03(rep, tier):
             if e.get('k') == 'assign':
                 l = strip_casts(e['l'])
                 if is_call(l, '::operator[]') and field_chain(l['obj'])[1][-1:] == ['marks']:
-                    G.check(is_call(strip_casts(e['r']), 'GenState::createLabel'), '%s: marks[...] = ...' % f['q'], 'fresh label',
+                    G.check(is_call(strip_casts(m.origin(f, e['r'])), 'GenState::createLabel'), '%s: marks[...] = ...' % f['q'], 'fresh label',
                             'mark table receives %s, not a fresh label' % show(e['r']), W(m, f, e))
     # unset marks are reported
     errs = [ev for ev in gp.calls_to('GenState::err')]
@@ -828,21 +893,35 @@ def hidden_file_rule(rule, m, rep):
     gm = GenModel.__new__(GenModel)
     gm.facts = pf
     gm._defs = {}
+    gm._cfg = {}
     for e in walk_all_exprs(parse['body']):
-        if is_call(e, '::insert') and table_of(e.get('obj'))[0] is None and strip_casts(e['obj']).get('dk') == 'param':
-            for x in walk_expr(e):
-                if x.get('k') == 'str':
-                    keys.append(x['v'])
-                    break
+        if e.get('k') == 'call' and m.callee(e).split('::')[-1] in ('insert', 'emplace', 'insert_or_assign', 'try_emplace') and \
+                table_of(e.get('obj'))[0] is None and strip_casts(e['obj']).get('dk') == 'param':
+            a0 = strip_conv(strip_copies(strip_casts(e['args'][0])))
+            if a0 is not None and a0.get('k') == 'call' and (a0.get('callee') or '').startswith('std::make_pair'):
+                a0 = a0['args'][0]
+            kv = gm.streval(parse, a0)
+            if kv is None:
+                for x in walk_expr(e):
+                    if x.get('k') == 'str':
+                        kv = x['v']
+                        break
+            if kv is not None:
+                keys.append(kv)
     for st in walk_stmts(parse['body']):
         if st['k'] == 'decl':
             for v in st['vars']:
                 if v.get('init') is not None:
-                    for x in walk_expr(v['init']):
-                        if x.get('k') == 'str' and x['v'].lower().startswith('include'):
-                            phrase.append(x['v'])
+                    sv = gm.streval(parse, v['init'])
+                    if sv is not None and sv.lower().startswith('include'):
+                        phrase.append(sv)
+                    elif sv is None:
+                        for x in walk_expr(v['init']):
+                            if x.get('k') == 'str' and x['v'].lower().startswith('include'):
+                                phrase.append(x['v'])
     rule.check(hidden in keys, 'parse: standard-macro key', 'parse() inserts the standard macros under "%s", the name advanceLine hides' % hidden,
-               'parse() inserts the standard macros under %s but advanceLine hides "%s"' % (keys, hidden), 'Compiler/src/parse.cpp:%d' % parse['loc'][1])
+               'parse() inserts the standard macros under %s but advanceLine hides exactly "%s": tokens of the standard macros then carry a file name that is not hidden' % (
+                   keys if keys else 'a key computed at run time', hidden), 'Compiler/src/parse.cpp:%d' % parse['loc'][1])
     rule.check(any(('"%s"' % hidden) in p for p in phrase), 'parse: include phrase', 'the prepended include names "%s"' % hidden,
                'the prepended include phrase %s does not name "%s"' % (phrase, hidden), 'Compiler/src/parse.cpp:%d' % parse['loc'][1])
     return hidden
@@ -977,6 +1056,9 @@ def c08(rep, tier):
                 unguarded_map_erase.append(ev)
         if pb_elem and unguarded_map_erase:
             why.append('map-level erase of the location is not guarded by an emptiness test of its site list')
+        if pb_elem and not pb_map_er:
+            why.append('the site is removed from its location\'s list, but a location whose list became empty is never erased: it stays available '
+                       '(setBreakPoint accepts it) although no instruction can report it')
         if cannot and not why:
             B.unknown(inst, cannot, W(m, f, pop))
         else:
@@ -1025,6 +1107,7 @@ def c08(rep, tier):
                            'the file name parse() uses', floor=3)
     hidden_file_rule(Dd, m, rep)
     # ---- e locations are token positions
+    token_pairs_rule(rep, m)
     E = rep.rule('C08.e', 'the current location is only ever set from (line, file) of one syntax-tree node; node positions '
                           'are copied pairwise from one token or node', floor=10)
     al = m.fn('GenState::advanceLine')
@@ -1096,6 +1179,52 @@ def c16(rep, tier):
                     m.callee(e).split('::')[-1] in ('insert', 'emplace', 'insert_or_assign', 'try_emplace', 'erase', 'clear', 'swap', 'operator='):
                 O1.check(f['q'] == 'GenState::popSymbols', '%s: funcAddrs.%s' % (f['q'], m.callee(e).split('::')[-1]), 'registration',
                          'routine table modified outside popSymbols', W(m, f, e))
+    # std::map::operator[] inserts: a mere *read* funcAddrs[name] registers an empty record for an unknown name
+    for f in m.all_fns():
+        gg = None
+        for e in walk_all_exprs(f['body']):
+            if not (is_call(e, '::operator[]') and e.get('obj') is not None and table_of(e['obj'])[0] == 'funcAddrs'):
+                continue
+            if f['q'] == 'GenState::popSymbols':
+                continue
+            # assignments through operator[] are judged above
+            is_target = any((x.get('k') == 'assign' and strip_casts(x['l']) is e) or
+                            (x.get('k') == 'call' and m.callee(x).endswith('::operator=') and x.get('obj') is not None and strip_casts(x['obj']) is e)
+                            for x in walk_all_exprs(f['body']))
+            if is_target:
+                continue
+            gg = gg or m.cfg(f)
+            ev = gg.ev(e)
+            key = strip_casts(e['args'][0])
+            inst = '%s: read of funcAddrs[%s]' % (f['q'], show(key)[:30])
+
+            def found(c, key=key):
+                c = strip_casts(c)
+                if c is None:
+                    return None
+                if c.get('k') == 'un' and c['op'] == '!':
+                    v = found(c['e'])
+                    return None if v is None else not v
+                same = lambda a: m.same_var(a, key) or (m.strval(f, a) is not None and m.strval(f, a) == m.strval(f, key))
+                if (is_call(c, '::contains') or is_call(c, '::count')) and c.get('obj') is not None and table_of(c['obj'])[0] == 'funcAddrs' and same(c['args'][0]):
+                    return True
+                if c.get('k') in ('bin', 'call') and c.get('op') in ('==', '!='):
+                    fnd = [x for x in walk_expr(c) if is_call(x, '::find') and x.get('obj') is not None and table_of(x['obj'])[0] == 'funcAddrs' and same(x['args'][0])]
+                    end = [x for x in walk_expr(c) if is_call(x, '::end')]
+                    if fnd and end:
+                        return c['op'] == '!='
+                return None
+            ok_guard = any(isinstance(label, bool) and found(cond) is not None and found(cond) == label for cond, label, cn in gg.guards_of(ev))
+            root_ok = False
+            if f['q'] == 'Theo::gen':
+                pops_ = gg.calls_to('GenState::popSymbols')
+                pushes_ = gg.calls_to('GenState::pushSymbols')
+                rn = m.strval(f, pushes_[0].e['args'][0]) if len(pushes_) == 1 else None
+                root_ok = len(pops_) == 1 and gg.dominates(pops_[0], ev) and rn is not None and m.strval(f, key) == rn
+            O1.check(ok_guard or root_ok, inst, 'only after a successful lookup of the same name (or of the root routine after it was finished)',
+                     'operator[] on the routine table inserts an empty record (entry 0, no arguments) when the name is unknown: from then on the name is callable - '
+                     'a program can call itself, and the call enters the main script', W(m, f, e),
+                     witness={'input': 'PROGRAM spin DO x0 := RUN spin WITH END END  r := RUN spin WITH END'} if not (ok_guard or root_ok) else None)
     dp = m.fn('dispatchProgram')
     rep.analysed(dp)
     g = m.cfg(dp)
